@@ -187,6 +187,7 @@ def generate(rng, tier, idx):
         sc['sink'] = gen_sink(rng, enc)
     else:
         sc['in_from'] = rng.choice(['stdin', 'file'])
+        sc['stdin_errors'] = rng.choice(['strict', 'surrogateescape'])
         sc['out_to'] = rng.choice(['stdout', 'stdout', 'file'])
         sc['sink'] = {'type': 'bytes', 'shape': 'std', 'bufsize': rng.choice([1, 16, 64, 8192]), 'tw_chunk': rng.choice([None, 1, 8, 32, 64])}
         if sc['out_to'] == 'file':
@@ -608,6 +609,12 @@ def _build_sqlite(w, sc):
     return path
 
 
+def _std_text_reader(buffered, sc):
+    """sys.stdin as CPython builds it: a TextIOWrapper over the byte stream, strict under an ordinary locale, with the
+    surrogateescape error handler under the C / POSIX locale (the scenario's knob)."""
+    return io.TextIOWrapper(buffered, encoding='utf-8', errors=sc.get('stdin_errors', 'strict'))
+
+
 def _run_process(t, sc, fault, obs):
     """query_csv / query_sqlite_to_csv called directly ('file', 'sqlite') or through rbql_main.main() ('cli', 'sqlite_cli')."""
     front = sc['front']
@@ -655,7 +662,7 @@ def _run_process(t, sc, fault, obs):
         if use_stdin:
             raw = SimRawSource(in_data, bad['pieces'], log=Sim.log)
             raws['input'] = raw
-            stdin = StdShape(io.BufferedReader(raw, buffer_size=max(1, bad['bufsize'])))
+            stdin = _std_text_reader(io.BufferedReader(raw, buffer_size=max(1, bad['bufsize'])), sc)
         else:
             def sub_in(mode):
                 raw = SimRawSource(in_data, bad['pieces'], log=Sim.log)
@@ -663,7 +670,7 @@ def _run_process(t, sc, fault, obs):
                 return io.BufferedReader(raw, buffer_size=max(1, bad['bufsize']))
             tracker.substitutes[in_path] = sub_in
     elif use_stdin:
-        stdin = StdShape(io.BufferedReader(io.BytesIO(in_data)))
+        stdin = _std_text_reader(io.BufferedReader(io.BytesIO(in_data)), sc)
     # output
     budget = fault['budget'] if fault and fault['kind'] == 'sink_break_bytes' else None
     if sc.get('file_budget') is not None:
